@@ -24,6 +24,7 @@ import Nitime.Generated.SeriesCalls
 import Nitime.Generated.FsBindings
 import Nitime.Model.C15Reader
 import Nitime.Model.C15Opts
+import Nitime.Model.C15Obj
 import Nitime.Model.C19
 
 namespace Nitime.C15
@@ -326,6 +327,10 @@ def handle (args : List String) : String :=
   | ["readerhist", calls] => Opts.handleHist calls
   -- era <C19 job line>: the event-related analyzer's DATA (multi-row event series, dtypes) through the C19 model
   | "era" :: rest => Nitime.C19.handle rest
+  -- objhist <nitems> <fails> <ops>: reads / set_input on ONE analyzer whose per-item loop fails part-way (Model/C15Obj.lean)
+  | ["objhist", n, fails, ops] => Obj.handleHist .localDict n fails ops
+  -- seedrows <ntarget> <idx> <mem>: which target row's dense result every seed row must show (Model/C15Obj.lean)
+  | ["seedrows", n, idx, mem] => Seed.handleSeed .values n idx mem
   | _ => "bad-op"
 
 end Nitime.C15
